@@ -54,6 +54,12 @@ pub struct ItemReq {
     /// path rewrites for statics (R12): "crypto::ENCODED_PUB" -> "crypto::encoded_pub()"
     #[serde(default)]
     pub statics: BTreeMap<String, String>,
+    /// R17b: method name after which a request-builder chain is cut (`cut_chain` rule)
+    #[serde(default)]
+    pub cut_method: Option<String>,
+    /// cargo features that are off in the shipped configuration: statements gated on them are dropped (R2)
+    #[serde(default)]
+    pub off_features: Vec<String>,
 }
 
 #[derive(Serialize, Debug, Default)]
